@@ -1220,7 +1220,7 @@ class VM:
                     return vm._make_array_method(target, _name)(*args)
 
                 return JSBoundMethod(array_method)
-            return obj.get(key_str)
+            # anything else: an ordinary (own or inherited) property, see below
 
         if isinstance(obj, JSRegExp):
             # RegExp methods and properties
